@@ -333,7 +333,7 @@ class Check(DiffCheck):
 
     # ------------------------------------------------------------------ build
     def build_impl(self):
-        flags = '-fno-sanitize=alignment -msse4.2 -mpclmul -Wno-invalid-offsetof -I%s' % os.path.join(VERIF, 'harness/C12')
+        flags = '-fno-sanitize=alignment,null -msse4.2 -mpclmul -Wno-invalid-offsetof -I%s' % os.path.join(VERIF, 'harness/C12')
         srcs = [os.path.join(REPO, 'common/checksum/crc.cpp'), os.path.join(REPO, 'common/checksum/crc_tables.cpp'),
                 os.path.join(REPO, 'common/checksum/crc_tables.h'), os.path.join(REPO, 'common/checksum/crc32c.h'),
                 os.path.join(VERIF, 'harness/C12/crc_tu.cpp'), os.path.join(VERIF, 'harness/C12/tscut.h'),
@@ -450,7 +450,7 @@ class Check(DiffCheck):
                     t[1] = self.flagstr; t[3] = self.shapes.get(t[2], t[3])       # corpus cases follow the tree's mode and layout
                     cs.append(' '.join(t))
         types = sorted(self.shapes, key=lambda s: int(s[1:]))
-        per = 60 if tier == 'quick' else 1200
+        per = globals().get('PER_OVERRIDE') or (60 if tier == 'quick' else 1200)
         self.meta = {}
         for ty in types:
             size, checked, fs = parse_shape(self.shapes[ty])
